@@ -38,7 +38,7 @@ var tokenAlphabet = []string{
 	// blanks inside a ratio (each optional on its own); a line comment that runs to the end of the text
 	"1/ 6", "1 /6", "3 / 4", "// c",
 	// numerals that are long only because of leading zeros
-	"00000000000000000042", "-000000000000000000000042",
+	"00000000000000000042", "-000000000000000000000042", "08/10", "1/09",
 }
 
 var alphaN = strconv.Itoa(len(tokenAlphabet))
